@@ -52,6 +52,8 @@ func init() {
 			{"vmshape", "V3", 70, "the VM hands the operands to the operator in (left, right) order with the opcode of the instruction"},
 			{"vmshape", "V5", 3, "the increment instruction applies the same '+' (Arith ADD with the integer 1) as the general form"},
 			{"bcai", "B11", 25, "x + 1 is only compiled to the integer increment for the integer literal 1"},
+			{"bcai", "B9", 25, "the operator receives the operand values the expression denotes: a left operand parked in the temp register is not overwritten before the operator reads it"},
+			{"bcai", "B5", 25, "operands are compiled into the slots the operator reads them from, left as receiver"},
 		},
 		Technique:   "abstract interpretation of every operator method of package value over all kind pairs with symbolic payloads; the extracted case table is compared with the documented algebra written as data",
 		Decides:     "for all operand values: which cases every operator distinguishes on every pair of operand kinds, the Go primitive and conversions applied in each, the error class of every other pair, the zero-divisor guard, symmetry of == and != as its negation, and the exact index bounds; the VM side binding of operands to receiver/argument.",
@@ -61,6 +63,10 @@ func init() {
 	RegisterSpec(&Spec{
 		ID: "C15", Title: "Encodings are lossless and size limits are enforced, never wrapped",
 		Rules: []RuleRef{
+			{"bcai", "B3", 25, "a jump distance is the difference of two code positions, patched once into a single operand (no split or partial encodings)"},
+			{"vmshape", "V18", 11, "the VM continues at ip + that one operand: encoder and decoder of jump distances agree"},
+			{"own", "O5", 2, "a frame of any size gets its room before it is written"},
+			{"own", "O5c", 2, "growth appends at least the requested size, whatever the size"},
 			{"pipeline", "P7", 1, "a refused program ends the process: the operand-limit abort is never swallowed into a session that continues on half-compiled code"},
 			{"vmshape", "V13", 2, "RET hands a returned function on with the same node, parameter count and local count: it is re-pointed at the copied frame, or rebuilt with the fields in NewFunction's parameter order"},
 			{"enc", "E1", 9, "every instruction field is read back with the shift and width it was written with; fields are disjoint"},
@@ -91,6 +97,9 @@ func init() {
 	RegisterSpec(&Spec{
 		ID: "C18", Title: "Frames are isolated under any growth: a variable holds its last written value",
 		Rules: []RuleRef{
+			{"vmshape", "O3", 1, "a captured frame is a live slice of the reallocating stack (known finding)"},
+			{"vmshape", "V8", 60, "a destroyed context is unregistered where it is freed: no context is handed to two live iterators (which would share one stack)"},
+			{"vmshape", "V16", 1, "a recycled context carries no children"},
 			{"own", "O2", 12, "a forked / recycled memory shares no growable storage (closure stack, value stack, frame pointers) with its donor"},
 			{"own", "O4", 8, "a recycled memory is extended to the length needed and not consulted while it holds stale state"},
 			{"own", "O5", 2, "room is ensured before a slot at or above sp is written"},
@@ -108,6 +117,11 @@ func init() {
 	RegisterSpec(&Spec{
 		ID: "C03", Title: "Functions are pure: same arguments, same result, whatever happened before",
 		Rules: []RuleRef{
+			{"vmshape", "O7", 2, "only MOV and INC write variables, locals through Set"},
+			{"strw", "S3", 20, "assignments inside a function write its own variables, never an outer one"},
+			{"vmshape", "V6", 50, "a resumed generator continues on its own memory"},
+			{"vmshape", "V15", 1, "iterator contexts of different call depths or loops never collide"},
+			{"bcai", "B9", 25, "no expression reads a temp register that another evaluation may have overwritten"},
 			{"vmshape", "O3", 1, "the set of places where a live slice of the reallocating value stack is captured into a value"},
 			{"vmshape", "V13", 2, "a returned function value gets a private copy of its captured frame before the frame is popped"},
 			{"vmshape", "V7", 6, "FUNC captures the current frame; CALL/RET symmetric"},
@@ -124,6 +138,10 @@ func init() {
 	RegisterSpec(&Spec{
 		ID: "C10", Title: "Values are immutable: operations never alter operands or program constants",
 		Rules: []RuleRef{
+			{"bcai", "B10", 25, "constants of the data segment are typed operands, only read"},
+			{"vmshape", "V5", 3, "INC builds a new value"},
+			{"vmshape", "V3", 70, "every operator instruction applies the operator method of the checked table (no second, unchecked implementation is reachable from the VM)"},
+			{"pipeline", "P6", 2, "the data segment, where program constants live, only ever grows: no constant is dropped or replaced while code that addresses it exists"},
 			{"vmshape", "O1", 1, "ARR appends to a private copy of its array operand; no handler stores into the data segment or a payload"},
 			{"valtab", "A1", 900, "array + array builds a new array from a clone of the left payload; slicing and indexing only read"},
 		},
@@ -134,6 +152,7 @@ func init() {
 	RegisterSpec(&Spec{
 		ID: "C16", Title: "All three run modes execute the same program the same way",
 		Rules: []RuleRef{
+			{"vmshape", "O6", 1, "the reset after a runtime error happens inside the VM, for every driver alike"},
 			{"pipeline", "P1", 2, "in every mode nothing is rewritten, compiled or run while the parse error is non-nil"},
 			{"pipeline", "P2", 4, "in every mode every statement of the parse result goes through STRewrite(empty table) -> ByteCode* -> Run"},
 			{"pipeline", "P3", 2, "a script line is never dropped: the reader returns whole lines of any length and a last line without line break is processed"},
@@ -150,6 +169,9 @@ func init() {
 	RegisterSpec(&Spec{
 		ID: "C04", Title: "Lexical scoping and isolation: a call cannot disturb its caller",
 		Rules: []RuleRef{
+			{"vmshape", "O3", 1, "captured frames are live slices of the stack (known finding)"},
+			{"own", "O4", 4, "a recycled context is re-initialised before use"},
+			{"own", "O8", 20, "a call frame holds exactly its own locals, nil-initialised"},
 			{"strw", "S1", 20, "every node rewrites into the same node with each child resolved from the same child under the same table"},
 			{"strw", "S2", 15, "a read resolves to the own variable, else to the immediately enclosing function's, else to the global"},
 			{"strw", "S3", 6, "assignments and loop variables inside a function always target the function's own slot; the right-hand side / iterators are resolved first"},
@@ -191,6 +213,7 @@ func init() {
 		Rules: []RuleRef{
 			{"grammar", "G3", 7, "five left-associative binary levels with the documented operator sets, prefix operators over index over atom; the transformers fold to the left"},
 			{"grammar", "G5", 19, "every grammar definition equals the documented grammar (statement and block layout, line breaks, array literals, parentheses add no node)"},
+			{"grammar", "G6", 2, "a literal stands for exactly the number its text spells: IntLit through the exact integer conversion, FloatLit through ParseFloat"},
 			{"grammar", "G4", 14, "each transformer builds exactly one node of the documented kind from what its rule parses"},
 			{"grammar", "T2", 20, "every documented operator is lexable, wrapped and compiled"},
 			{"grammar", "T3", 30, "every literal the grammar expects is a single token of the lexer"},
@@ -204,6 +227,24 @@ func init() {
 	RegisterSpec(&Spec{
 		ID: "C01", Title: "Compiled execution matches the definitional semantics of the language",
 		Rules: []RuleRef{
+			{"vmshape", "V12", 2, "read takes the next line of standard input"},
+			{"vmshape", "V11", 2, "write has its effect when it is executed: the value goes straight to standard output"},
+			{"own", "O8", 20, "frames are laid out as the call protocol expects"},
+			{"builtins", "U1", 9, "the builtin functions are the documented definitions"},
+			{"valtab", "A3", 60, "== is symmetric and != its negation"},
+			{"valtab", "A2", 1, "integer division and modulo are guarded against a zero divisor"},
+			{"vmshape", "O7", 2, "only MOV and INC write variables"},
+			{"vmshape", "O1", 1, "array construction never writes into an existing value"},
+			{"vmshape", "V16", 1, "a destroyed iterator context leaves nothing behind that a later loop could pick up"},
+			{"vmshape", "V15", 1, "iterator contexts are keyed injectively by (call depth, id)"},
+			{"vmshape", "V13", 2, "a returned closure keeps its captured values"},
+			{"vmshape", "V10", 30, "conditions, indices and arguments are type checked in every handler"},
+			{"vmshape", "V8", 60, "yield, resume and context destruction transfer exactly one value and free what they must"},
+			{"vmshape", "V7", 6, "call / return protocol"},
+			{"vmshape", "V6", 50, "a context switch continues the right coroutine on the right memory"},
+			{"vmshape", "V5", 3, "x = x + 1 compiled to INC applies the same + as the general form"},
+			{"bcai", "B8", 25, "for loops create, resume and destroy their iterator contexts under consistent ids"},
+			{"vmshape", "V18", 11, "jumps continue where the compiler rules assume: ip + operand when taken, ip + 1 otherwise"},
 			{"bcai", "B1", 25, "no emitted instruction is meaningless to the VM: every operand kind is one the handler accepts"},
 			{"bcai", "T1", 25, "every emitted opcode has a handler"},
 			{"bcai", "T2m", 2, "every operator lexeme is compiled to the opcode of the same name"},
@@ -232,6 +273,10 @@ func init() {
 	RegisterSpec(&Spec{
 		ID: "C02", Title: "for loops consume exactly what their iterators yield, lazily and in order",
 		Rules: []RuleRef{
+			{"vmshape", "V7", 6, "generator calls follow the call protocol inside their context"},
+			{"own", "O8", 20, "a forked iterator context starts with exactly the creator's frame"},
+			{"own", "O4", 4, "a recycled iterator context is re-initialised before use"},
+			{"strw", "S3", 20, "the iterator expressions of a loop are resolved before its loop variables exist: a loop variable named like an outer variable does not capture the iterator's read of it"},
 			{"own", "O2", 12, "a suspended generator's closure stack cannot be overwritten by the loop body (own closure stack per context)"},
 			{"bcai", "B9", 25, "the value of a yield does not live in the VM-wide tmp register across the loop body"},
 			{"bcai", "B8", 25, "iterator contexts are created, resumed and destroyed under consistent ids; a return destroys the loops it leaves"},
@@ -248,6 +293,20 @@ func init() {
 	RegisterSpec(&Spec{
 		ID: "C05", Title: "No accepted program can crash the interpreter; failures are calc runtime errors",
 		Rules: []RuleRef{
+			{"grammar", "G2", 4, "no Choose without a total alternative"},
+			{"lexfsm", "L2", 60, "no lexer state aborts"},
+			{"enc", "E2", 1, "operand fields cannot wrap into other indices"},
+			{"vmshape", "V15", 1, "context keys are injective"},
+			{"vmshape", "V16", 1, "no context is freed twice"},
+			{"vmshape", "V8", 60, "context protocol"},
+			{"vmshape", "V7", 6, "CALL / RET protocol (can't pop instruction pointer is unreachable)"},
+			{"own", "O8", 20, "frames are pushed and popped symmetrically; the return address is where RET reads it"},
+			{"strw", "S4", 2, "LocalCnt covers every slot"},
+			{"strw", "S3", 20, "every local slot handed out lies below LocalCnt (a slot beyond the frame indexes past the stack)"},
+			{"vmshape", "V18", 11, "jumps continue at ip + operand"},
+			{"bcai", "B3", 25, "every jump lands inside the code that was compiled (a wild jump runs off the code segment)"},
+			{"bcai", "B2", 25, "no compiled code pops below the height it was entered with (a pop at height 0 indexes the stack at -1)"},
+			{"vmshape", "O6", 1, "after a runtime error the main memory is reset completely (stale frames would make the next fork slice out of range)"},
 			{"abort", "C5", 80, "every abort site of the module is discharged by a named argument (or is documented behaviour / environment)"},
 			{"bcai", "B1", 25, "'unknown source' / 'unexpected dst' are unreachable: emitted kinds are accepted"},
 			{"bcai", "B10", 25, "'unknown global', 'cannot convert value to array', SetFrame panic are unreachable"},
@@ -271,6 +330,8 @@ func init() {
 	RegisterSpec(&Spec{
 		ID: "C08", Title: "A session survives errors: a failed statement leaves no trace but its globals",
 		Rules: []RuleRef{
+			{"vmshape", "V11", 1, "what a failed statement wrote is out before its error report: no output is carried into the next statement"},
+			{"vmshape", "V16", 1, "contexts destroyed by the reset are not reused with stale children"},
 			{"pipeline", "P7", 1, "a session is only resumed after errors that leave whole statements behind: no panic is recovered in the middle of a statement"},
 			{"vmshape", "V4", 90, "every failure inside Run takes the dumpStack path"},
 			{"vmshape", "O6", 1, "dumpStack resets the main context: memory, ip at the end of the code, child contexts"},
@@ -287,6 +348,11 @@ func init() {
 	RegisterSpec(&Spec{
 		ID: "C09", Title: "Evaluation leaves the machine clean: no stack, frame or context residue",
 		Rules: []RuleRef{
+			{"vmshape", "V6", 50, "contexts are switched, not leaked"},
+			{"vmshape", "V15", 1, "context keys are injective: destroying a range destroys exactly that loop's contexts"},
+			{"own", "O8", 20, "a forked or recycled context starts with exactly the creator's top frame: no frames of a previous life are kept"},
+			{"own", "O2", 6, "a recycled context shares no storage with its previous owner"},
+			{"own", "O4", 4, "a recycled context is re-initialised before use"},
 			{"bcai", "B2", 25, "every statement form in discarded / used / returning position leaves exactly one value or none; loop back-edges have equal height"},
 			{"bcai", "B4", 25, "the descriptor says whether a value was left"},
 			{"bcai", "B8", 25, "every iterator context a loop creates is destroyed on exhaustion and on return"},
@@ -305,6 +371,9 @@ func init() {
 	RegisterSpec(&Spec{
 		ID: "C12", Title: "An expression means the same wherever it is written",
 		Rules: []RuleRef{
+			{"bcai", "B10", 25, "typed operands"},
+			{"vmshape", "V3", 70, "the same operator method in every code-generation strategy (plain, TMP variant, INC)"},
+			{"bcai", "B5", 25, "operands are compiled in source order whatever the position"},
 			{"bcai", "B2", 25, "every code-generation strategy (temp accumulation, PUSHTMP flush, discard / returning variants) delivers the value where the descriptor says"},
 			{"bcai", "B4", 25, "result honesty in every context"},
 			{"bcai", "B9", 25, "tmp strategies never read a clobbered tmp (call in right operand, array literal, yield)"},
@@ -322,6 +391,7 @@ func init() {
 	RegisterSpec(&Spec{
 		ID: "C17", Title: "Built-in functions keep their contracts for every argument",
 		Rules: []RuleRef{
+			{"valtab", "A1", 900, "aton / toa and the operators the builtins use follow the documented table"},
 			{"vmshape", "V12", 2, "read takes whole lines from one buffered reader that outlives the instruction"},
 			{"vmshape", "V11", 2, "toa and write render through value.Type.String"},
 			{"vmshape", "V10", 30, "aton of a non-string is a type error, an unconvertible string a conversion error; wrong arity is an arity error, a non-function callee a type error"},
@@ -338,6 +408,10 @@ func init() {
 	RegisterSpec(&Spec{
 		ID: "C19", Title: "Runtime error reports point at the real failure",
 		Rules: []RuleRef{
+			{"vmshape", "V7", 6, "the return address is pushed where the dump reads it"},
+			{"bcai", "B3", 25, "the code position of an instruction is stable (code is only appended): the ip in a report names the failing instruction"},
+			{"strw", "S2", 15, "a resolved reference keeps the name of its variable (the debug info of a call names the callee from it)"},
+			{"own", "O8", 20, "the forked frame is copied whole and nothing else is written into the clone's stack (the return address slot the stack dump reads stays intact)"},
 			{"vmshape", "V4", 40, "the failing ip, the current context and exactly the fetched operands reach the report"},
 			{"vmshape", "V10", 30, "the error class reported is the class of the failure"},
 			{"vmshape", "V1", 60, "operands are fetched from the slot the instruction names"},
@@ -360,6 +434,7 @@ func init() {
 			{"lexfsm", "L3", 200, "documented token structure: start characters, longest operator run, one-character brackets, one EOL per line break, skipped text is blanks/comments only"},
 			{"lexfsm", "L4", 40, "the token started by a character does not depend on what preceded it (blanks/comments change no token)"},
 			{"lexfsm", "N1", 1, "token text is the input between the span bounds"},
+			{"lexfsm", "N9", 1, "a token hands back the bounds the lexer measured (not bounds recomputed from its text)"},
 			{"lexfsm", "N2", 5, "spans are consecutive: from only ever becomes to, to only grows by the size of the rune read"},
 			{"lexfsm", "N3", 1, "the state saved at emit is the returned next state"},
 			{"lexfsm", "N6", 1, "the lexer scans exactly the text it was given (no trimming or rewriting before scanning)"},
